@@ -2,7 +2,7 @@ from common import KERNEL, CORR
 
 PROP = dict(
     level="proof",
-    generators=["C16", "C03"],   # the admission ops too: they observe the start / stop of the pipeline for every kind of input (publishers of each protocol, relay pull) and Dispose
+    generators=["C16", "C03", "C10"],   # the admission ops (start / stop of the pipeline for every kind of input, Dispose) and the HLS muxer ops (the open segment and the playlists are finalised when the input ends)
     harness_timeout=900,
     trusted_base=[
         KERNEL, CORR,
